@@ -429,6 +429,8 @@ func c05(w *core.World, r *core.Report) {
 	ruleWriteCreditedBeforeRotation(w, r)
 	r.Rule("R05.14", "a finishing memory log writer removes only its own empty segment (by identity, never by position)", 1)
 	ruleFinishRemovesOwnSegment(w, r)
+	r.Rule("R05.15", "every log segment starts with a fresh running checksum (reset at every rotation)", 1)
+	ruleOpenFileResetsChecksum(w, r)
 }
 
 func ruleCheckThenAcquire(w *core.World, r *core.Report) {
@@ -912,6 +914,8 @@ func c08(w *core.World, r *core.Report) {
 	ruleWriterMarker(w, r)
 	r.Rule("R08.7", "opening a reader with verification cannot block on the storer's own mutex", 1)
 	ruleNoSelfDeadlock(w, r, "no-self-deadlock")
+	r.Rule("R08.9", "every data set built from a directory goes through the gap truncation and the snapshot/log joint test", 1)
+	ruleScanAlwaysTruncates(w, r)
 }
 
 func ruleRdbCommit(w *core.World, r *core.Report) {
